@@ -373,7 +373,7 @@ Done == st = "done" /\ UNCHANGED vars
 
 -----------------------------------------------------------------------------
 (* The model's environment: bounded data, every class for every acknowledgement. *)
-Tails(c) == {r \in {0, 1, c \div 2, c - 1} : r >= 0 /\ r < c}
+Tails(c) == {r \in {0, c - 1} : r >= 0 /\ r < c}
 
 MEncFull == enc.n < MaxChunks /\ EncFull
 MEndOfData == \E r \in Tails(enc.cap) : EndOfData(r)
